@@ -194,6 +194,24 @@ pub fn spaces(tier: Tier) -> Vec<Space<'static>> {
             acc.vio("MODEL-SELFTEST:documented-example-not-in-core-grammar", || json!({"input": golden[i as usize]}));
         }
     }));
+    // number literals in every spelling of sign x mantissa x exponent marker (e / E) x exponent sign, on
+    // either side of a comparison, in a filter, and alone
+    {
+        let mut lits: Vec<String> = vec![];
+        for sign in ["", "-"] {
+            for mant in ["0", "1", "12", "1.5", "0.5", "10.0", "123456789"] {
+                for exp in ["", "e5", "E5", "e+5", "E+5", "e-2", "E-2", "e05", "E0", "e0"] {
+                    lits.push(format!("{}{}{}", sign, mant, exp));
+                }
+            }
+        }
+        sp.push(Space::new("number literals: sign x mantissa x exponent spelling (e/E, signed, padded) in four contexts", lits.len() as u64, move |i, acc| {
+            let n = &lits[i as usize];
+            for t in [format!("$.a == {}", n), format!("{} == $.a", n), format!("$[*]?(@ > {})", n), format!("$.a?(@.b <= {} && @.c != {})", n, n), n.clone()] {
+                judge_raw(t.as_bytes(), acc);
+            }
+        }));
+    }
     // multi-byte sequences (byte order marks, Unicode white space, NUL run, CRLF) inserted at every
     // position of the documented examples and a few renderings
     {
